@@ -1630,3 +1630,7 @@ fn find_used_blobs<S>(
 
     Ok(ids)
 }
+
+#[cfg(kani)]
+#[path = "/verif/harness/commands_prune.rs"]
+pub(crate) mod verif_harness;
